@@ -28,6 +28,7 @@ type pworld struct {
 	clockNS int64
 	steps   int
 	log     []string
+	sched   []uint16 // schedule vector of every process of this world (goroutines / channels / select choices inside the tool)
 }
 
 func newPWorld() *pworld {
@@ -37,7 +38,7 @@ func newPWorld() *pworld {
 
 // run executes one invocation; the world's disk and clock move on to what the process left.
 func (w *pworld) run(args [][]byte, faults []simos.Fault, order *OrderPlan, tag string) (*NodeResult, error) {
-	job := &NodeJob{Args: args, Disk: w.disk.Clone(), ClockNS: w.clockNS, Faults: faults, Order: order}
+	job := &NodeJob{Args: args, Disk: w.disk.Clone(), ClockNS: w.clockNS, Faults: faults, Order: order, Sched: w.sched}
 	res, err := runNode(job, tag)
 	if err != nil {
 		return nil, err
@@ -54,7 +55,7 @@ func (w *pworld) run(args [][]byte, faults []simos.Fault, order *OrderPlan, tag 
 
 // probe executes an invocation from the current state without adopting its effects.
 func (w *pworld) probe(args [][]byte, faults []simos.Fault, tag string) (*NodeResult, error) {
-	job := &NodeJob{Args: args, Disk: w.disk.Clone(), ClockNS: w.clockNS, Faults: faults}
+	job := &NodeJob{Args: args, Disk: w.disk.Clone(), ClockNS: w.clockNS, Faults: faults, Sched: w.sched}
 	return runNode(job, tag)
 }
 
